@@ -223,9 +223,12 @@ def run(seed, tier, extra_cases=None, use_cache=True):
             if "sourceRoot" not in mo:
                 break
         fn = os.path.join(fsdir, "disk%d.js" % k)
-        if k % 2:
+        if k % 3 == 1:
             open(fn, "w").write(code + "//# sourceMappingURL=disk%d.js.map\n" % k)
             open(fn + ".map", "w").write(omap_text)
+        elif k % 3 == 2:
+            # the spelling Babel and webpack use for inline maps
+            open(fn, "w").write(code + "//# sourceMappingURL=data:application/json;charset=utf-8;base64," + base64.b64encode(omap_text.encode()).decode() + "\n")
         else:
             open(fn, "w").write(code + "//# sourceMappingURL=data:application/json;base64," + base64.b64encode(omap_text.encode()).decode() + "\n")
         toks = [{"gl": t[0], "gc": t[1], "mapped": t[2] is not None,
@@ -241,7 +244,7 @@ def run(seed, tier, extra_cases=None, use_cache=True):
             for kind, f, ln, ep, el in originals:
                 steps.append({"op": "original", "file": f, "line": ln, "col": 1, "kind": kind, "exp_path": ep, "exp_line": el})
         if hi % 90 == 0:
-            for fn, toks, nl in prng.sample(disk, 2):
+            for fn, toks, nl in prng.sample(disk, 3):
                 disk_toks[fn] = toks
                 pos = [[prng.randint(1, nl), prng.randint(1, 90)] for _ in range(6)]
                 for t in prng.sample(toks, min(4, len(toks))):
